@@ -120,14 +120,14 @@ def _cleanup_units():
     clean_block = Str(r'[a-z0-9/(][a-z0-9/ ()½¼#]{0,20}[0-9)½¼]')      # starts / ends with no separator or connective (lower case)
     return [
         Unit(name='C01/cleanup_desc[a clean block is returned verbatim]', prop='C01', target='props.c01:run_cleanup',
-             params={'text': clean_block}, max_unroll=3,
+             params={'text': clean_block}, max_unroll=8,
              ensures=[('verbatim', lambda text, result: result == text)]),
         Unit(name='C01/cleanup_desc[separators and trailing connectives removed from a clean block]', prop='C01',
              target='props.c01:run_cleanup',
              params={'text': __import__('pyvc.api', fromlist=['Cat']).Cat(
                  Choice(Const(''), Const(' '), Const(': '), Const(', '), Const('\n')), clean_block,
                  Choice(Const(''), Const(','), Const(' of'), Const(', and'), Const(' in the'), Const(';\n')))},
-             ghost={}, max_unroll=12,
+             ghost={}, max_unroll=24,
              ensures=[('only_the_block_remains', lambda text, result: in_re(result, r'[a-z0-9/(][a-z0-9/ ()½¼#]{0,20}[0-9)½¼]')
                        and result in text)]),
         # for EVERY text (loop invariant, no bound on the number of rounds): the clean-up only ever cuts at the two ends -- the
@@ -198,7 +198,12 @@ def _deduce_unit():
 
 
 def units():
-    return [_walk_unit(v) for v in VIEWS] + _cleanup_units() + [_deduce_unit()]
+    from pyvc.api import borrow
+    from props import c05
+    # 'exactly one tract per named section, in reading order': the sections a multi-section match names are SecUnpacker's result,
+    # whose contract (C05) is a callee contract of this property; the single-range instance is carried here, the longer lists in C05
+    return ([_walk_unit(v) for v in VIEWS] + _cleanup_units() + [_deduce_unit()]
+            + borrow(c05.units(), 'C01', keep=lambda u: 'unpack_sections' in u.name and ('1 items' in u.name or '2 items' in u.name)))
 
 
 # ======================================================================================================================
